@@ -4,17 +4,28 @@
 -/
 namespace StepModel.PyAgg
 
-/-- An element value: a type tag (which simple type the Python object is an instance of) and a payload.
-Two values are equal (`==`, `in`, hashing) iff tag and payload are equal. -/
+inductive Kind | array | list | bag | set
+  deriving DecidableEq, Repr
+
+/-- A base type / the type of a value: a simple type (tag = which class the Python object is an instance of), or an
+aggregate of a simple type (`ARRAY/LIST/BAG/SET OF <simple>`: the class of the aggregate object and its own base type,
+which is all `check_type` looks at for an aggregate). -/
+inductive Ty
+  | simple (t : Nat)
+  | agg (k : Kind) (b : Nat)
+  deriving DecidableEq, Repr
+
+instance : OfNat Ty n := ⟨.simple n⟩
+
+/-- An element value: its type and a payload.  Two values are equal (`==`, `in`, hashing) iff type and payload are
+equal: for simple values the payload is the number/string, for an aggregate object it is the object's identity
+(the aggregate classes define no `__eq__`/`__hash__`). -/
 structure Val where
-  ty : Nat
+  ty : Ty
   v : Nat
   deriving DecidableEq, Repr
 
 inductive Logical | t | f | u
-  deriving DecidableEq, Repr
-
-inductive Kind | array | list | bag | set
   deriving DecidableEq, Repr
 
 /-- `ARRAY [lo:hi] OF [OPTIONAL] [UNIQUE] base`, `LIST [lo:hi] OF [UNIQUE] base`, `BAG/SET [lo:hi] OF base`;
@@ -23,7 +34,7 @@ structure Decl where
   kind : Kind
   lo : Int
   hi : Option Int
-  base : Nat
+  base : Ty
   unique : Bool
   optional : Bool
   deriving DecidableEq, Repr
